@@ -228,8 +228,8 @@ def verify_one(task):
                                                  twin_lemmas if not ob.expect_sat else ())
             rec["obligations"].append({"name": ob.name, "kind": ob.kind, "line": ob.line, "tags": list(ob.tags),
                                        "result": res, "backend": backend, "ms": round(ms, 1), "model": model})
-        if not obs:
-            rec["status"] = "no-obligations"
+        if not [o for o in obs if o.kind != "pre-sat"]:
+            rec["status"] = "no-obligations"      # vacuity guard: a function under contract must generate obligations
     except Unsupported as e:
         rec["status"] = "unsupported"
         rec["error"] = str(e)
